@@ -23,8 +23,9 @@ type FileSummary struct {
 
 	// DependencyPositions maps a package named by TypeDependencies or
 	// FileDependencies to the import statement in the source file which
-	// brings it in, so that a failure to load the package can be reported
-	// there. Packages without a known position are absent.
+	// brings it in (the first reference when there is no import statement),
+	// so that a failure to load the package can be reported there. Packages
+	// without a known position are absent.
 	DependencyPositions map[string]*errpos.Position
 
 	ProducesFiles []string
